@@ -168,6 +168,75 @@ func runEnsureBig(ctx *core.Ctx) {
 	})
 }
 
+// runCombinedNesting: documents whose nesting only exceeds the codec's limit (10000) AFTER an operation
+// has put a deep value into a deep document - the library then holds a document it cannot re-read.
+func runCombinedNesting(ctx *core.Ctx) {
+	p := &seqProp{ID: "C04", Judge: func(*seqRun) {}}
+	const n = 6000
+	type shape struct{ doc, val, bottom string }
+	arrDoc := strings.Repeat("[", n) + strings.Repeat("]", n)
+	objDoc := strings.Repeat(`{"a":`, n-1) + "{}" + strings.Repeat("}", n-1)
+	shapes := []shape{
+		{arrDoc, arrDoc, strings.Repeat("/0", n-1) + "/-"},
+		{objDoc, objDoc, strings.Repeat("/a", n-1) + "/b"},
+		{arrDoc, objDoc, strings.Repeat("/0", n-1) + "/0"},
+	}
+	type unit struct {
+		sh     shape
+		second string
+		legacy bool
+	}
+	var units []unit
+	for _, sh := range shapes {
+		first := sh.bottom[:strings.Index(sh.bottom[1:], "/")+1]
+		for _, second := range []string{``,
+			`{"op":"test","path":"","value":1}`, `{"op":"test","path":"` + first + `","value":[]}`,
+			`{"op":"copy","from":"","path":"/zz"}`, `{"op":"copy","from":"` + first + `","path":"/zz"}`,
+			`{"op":"move","from":"` + first + `","path":"/zz"}`, `{"op":"remove","path":"` + sh.bottom[:len(sh.bottom)-2] + `"}`,
+			`{"op":"replace","path":"` + first + `","value":null}`, `{"op":"add","path":"` + first + `/zz","value":1}`} {
+			for _, legacy := range []bool{false, true} {
+				units = append(units, unit{sh, second, legacy})
+			}
+		}
+	}
+	ctx.Parallel(len(units), func(w *core.Worker, i int) {
+		u := units[i]
+		patch := `[{"op":"add","path":"` + u.sh.bottom + `","value":` + u.sh.val + `}`
+		if u.second != "" {
+			patch += "," + u.second
+		}
+		patch += "]"
+		w.Tick(func() string { return "combined nesting: add a 6000-deep value at the bottom of a 6000-deep document, then " + u.second })
+		for _, indent := range []string{"", " "} {
+			call := impl.Call{Doc: []byte(u.sh.doc), Patch: []byte(patch), Opt: defaultOpt, Indent: indent}
+			var o impl.Obs
+			lib := "v5"
+			if u.legacy {
+				o, lib = impl.V4Apply(call), "v4"
+			} else {
+				o = impl.V5Apply(call)
+			}
+			atomic.AddInt64(&nExec, 1)
+			ctx.Count("c04_combined_nesting_runs", 1)
+			if o.Panic != "" {
+				_ = p
+				ctx.Violate(core.Violation{Property: "C04", Clause: "panic", Key: "C04:panic:" + impl.PanicSite(o.Panic), Engine: "seqx",
+					Detail: fmt.Sprintf("[%s] a %d-deep document, add of a %d-deep value at its bottom, then %s: %s", lib, n, n, u.second, o.Panic),
+					Case:   core.J(SeqCase{Lib: lib, Doc: "<" + fmt.Sprint(n) + "-deep document: see detail>", Patch: "<see detail>", Opt: defaultOpt})})
+			}
+		}
+		// the merge functions with the same combination
+		for _, legacy := range []bool{false, true} {
+			r := impl.MergePatch(legacy, []byte(`{"k":`+u.sh.doc+`}`), []byte(`{"k":`+u.sh.val+`,"j":`+u.sh.doc+`}`))
+			atomic.AddInt64(&nExec, 1)
+			if r.Panic != "" {
+				ctx.Violate(core.Violation{Property: "C04", Clause: "panic", Key: "C04:panic:" + impl.PanicSite(r.Panic), Engine: "mergex",
+					Detail: "MergePatch of two 6000-deep values: " + r.Panic, Case: core.J(MergeCase{Func: "MergePatch", Args: []string{"<deep>", "<deep>"}})})
+			}
+		}
+	})
+}
+
 // decode + accessors, panics only, both packages
 func runC04Decode(ctx *core.Ctx, tier string) {
 	texts := []string{`[{"op":"test","path":""}]`, `[{"op":"add"}]`, `[{}]`, `[null]`, `[{"op":null,"path":null,"from":null,"value":null}]`, `null`, `[{"op":"move","path":"/a"}]`,
@@ -247,7 +316,7 @@ func init() {
 				"(1) every string over 16 symbols up to length 4 (thorough 5) in every []byte parameter of both packages (DecodePatch, Apply, Equal, MergePatch, MergeMergePatches, CreateMergePatch), the other parameter over {same, {}, [], {\"a\":1}, null}; " +
 				"(2) operation sequences of length <= 2 in which at least one operation is out-of-domain (empty tokens, non-canonical / overflowing / MinInt64 index tokens, bad ~ escapes, pointers without '/', '' as destination or remove target, root replaced by null or a scalar, test without value) " +
 				"on 8 documents under every combination of the ApplyOptions booleans with limits {0,1,10^6} (quick: one limit per combination), 3 indent strings; legacy package under its globals; " +
-				"(3) 10000/10001-deep nesting into every entry point of both packages; (4) EnsurePathExistsOnAdd with indices up to 10^4; (5) DecodePatch + accessors + Apply on awkward operation objects (every kind with every subset of its members missing or null); (6) ~10^4 string shapes (run-length patterns of ASCII / invalid UTF-8 / multi-byte / escapes around the decoder's buffer-growth boundaries) as root, element, member value and member name. states = distinct well-formed strings; non-trivial = library calls"
+				"(3) 10000/10001-deep nesting into every entry point of both packages, and nesting that only exceeds the limit after an add put a 6000-deep value at the bottom of a 6000-deep document (followed by each kind of operation); (4) EnsurePathExistsOnAdd with indices up to 10^4; (5) DecodePatch + accessors + Apply on awkward operation objects (every kind with every subset of its members missing or null); (6) ~10^4 string shapes (run-length patterns of ASCII / invalid UTF-8 / multi-byte / escapes around the decoder's buffer-growth boundaries) as root, element, member value and member name. states = distinct well-formed strings; non-trivial = library calls"
 			n := 4
 			if tier == "thorough" {
 				n = 5
@@ -255,6 +324,7 @@ func init() {
 			ctx.Phase("decode", func() { runC04Decode(ctx, tier) })
 			ctx.Phase("ensure_big", func() { runEnsureBig(ctx) })
 			ctx.Phase("deep", func() { runDeep(ctx, "C04", tier, true, false) })
+			ctx.Phase("combined_nesting", func() { runCombinedNesting(ctx) })
 			ctx.Phase("bytex_b_v5", func() { runBytexB(ctx, "C04", n, byteFlags{panics: true, applyOK: true}) })
 			ctx.Phase("bytex_b_legacy", func() { runBytexB(ctx, "C04", n, byteFlags{panics: true, applyOK: true, legacy: true}) })
 			ctx.Phase("string_shapes", func() {
